@@ -111,6 +111,18 @@ func c04Run(w *verifrt.World, tier Tier) *RunResult {
 	ref := runTx(h, script)
 	h.Close()
 
+	// a sibling WAF stays open during the repetitions: the same rules with the
+	// regex selectors moved to the other case-sensitivity class (ARGS family <->
+	// headers / cookies), so that anything cached process-wide under the text of
+	// a selector is shared with a WAF that needs a different value for it
+	sib := strings.NewReplacer("ARGS_GET:/", "\x00C:/", "ARGS_POST:/", "\x00C:/", "ARGS:/", "\x00H:/", "REQUEST_HEADERS:/", "\x00A:/", "REQUEST_COOKIES:/", "\x00G:/").Replace(text)
+	sib = strings.NewReplacer("\x00C:/", "REQUEST_COOKIES:/", "\x00H:/", "REQUEST_HEADERS:/", "\x00A:/", "ARGS:/", "\x00G:/", "ARGS_GET:/").Replace(sib)
+	if sib != text {
+		if sh, err := buildWAF(sib); err == nil {
+			defer sh.Close()
+			res.count("sibling_waf_open", 1)
+		}
+	}
 	long, _ := buildWAF(text) // long-lived instance, object recycled through the pool
 	defer long.Close()
 	warm := genScript(verifrt.NewTape("warm", w.Seed), &reqOpts{Body: true, MaxArgs: 4}, "warm")
